@@ -936,6 +936,8 @@ def ascii_cases(draw):
         "input": draw(st.sampled_from(["dataarray", "dataset"])),
         "prepare": draw(st.booleans()),
         "comment": draw(st.sampled_from(["", "measured 2024", "two words\nsecond line"])),
+        # detector counts / single precision files: the values are the same numbers, the axes stay what they are
+        "data_dtype": draw(st.sampled_from(["float64", "float64", "float64", "int64", "int32", "float32"])),
     }
 
 
@@ -950,7 +952,16 @@ def prop_ascii(case):
     t, s = build_axis(case["time"]), build_axis(case["spectral"])
     y = rng.standard_normal((t.size, s.size)) * 10.0 ** case["log10_scale"]
     y.flat[rng.integers(0, y.size)] = 0.0
-    da = xr.DataArray(y.copy(), coords=[("time", t.copy()), ("spectral", s.copy())])
+    dt = case.get("data_dtype", "float64")
+    if dt in ("int64", "int32"):
+        y = np.round(rng.standard_normal((t.size, s.size)) * 1000.0)
+        stored = y.astype(dt)
+    elif dt == "float32" and abs(case["log10_scale"]) < 30:
+        stored = y.astype(np.float32)
+        y = stored.astype(np.float64)
+    else:
+        dt, stored = "float64", y.copy()
+    da = xr.DataArray(stored, coords=[("time", t.copy()), ("spectral", s.copy())])
     swapped = case["dims_order"] == "spectral,time"
     if swapped:
         da = da.transpose("spectral", "time")
@@ -981,7 +992,7 @@ def prop_ascii(case):
               lambda: f"{secondary} axis written {want.tolist()} read back {have.tolist()} (dtype {have.dtype})")
         check(got.shape == y.shape, "ascii.orientation" + sfx, lambda: f"shape (time, spectral) {got.shape} vs {y.shape}")
         check(arrays_close(y, got.values, RTOL_ASCII), "ascii.values" + sfx, lambda: f"max rel. deviation {np.nanmax(np.abs(got.values - y) / np.maximum(np.abs(y), 1e-300)):.3e}")
-    return {"nontrivial": t.size != s.size, "tags": [case["format"], case["dims_order"], f"time-{case['time']['kind']}", f"spectral-{case['spectral']['kind']}", "prepare" if case["prepare"] else "raw"]}
+    return {"nontrivial": t.size != s.size, "tags": [case["format"], case["dims_order"], f"time-{case['time']['kind']}", f"spectral-{case['spectral']['kind']}", "prepare" if case["prepare"] else "raw", f"data_{dt}"]}
 
 
 # ------------------------------------------------------------------------------------------------
